@@ -142,7 +142,7 @@ Section Inst.
 End Inst.
 
 (* ---------- the shipped code (fixed := false) violates no_overlap ---------- *)
-Open Scope string_scope.
+Local Open Scope string_scope.
 Definition c11_witness : list instr :=
   [ mkInstr "RZ" [0] [] [(1#2)%Q] 10%Q; mkInstr "RZ" [1] [] [(1#2)%Q] 1%Q; mkInstr "CNOT" [1] [0] [] 2%Q ].
 
